@@ -69,6 +69,24 @@ def pick_entry(rng: random.Random, corp: List[Dict[str, Any]], rule_names: List[
     return text, origin_rule(entry, rule_names)
 
 
+def near_twins(rng: random.Random):
+    """Two modules that share a function text verbatim but differ in what it calls:
+    the helper is pure in one and has a side effect in the other, so a bare call of
+    the shared function is pointless in the first module only.  Whatever is learnt
+    about the shared text in one module must not be applied to the other."""
+    k = rng.randrange(1000)
+    helper, shared = f"helper_{k}", f"shared_{k}"
+    pure = f"def {helper}(x):\n    return x + {rng.randint(1, 9)}\n"
+    impure = rng.choice([
+        f"def {helper}(x):\n    print(x)\n    return x + 1\n",
+        f"LOG = []\n\n\ndef {helper}(x):\n    LOG.append(x)\n    return x + 1\n",
+        f"import os\n\n\ndef {helper}(x):\n    os.remove(x)\n    return 1\n",
+    ])
+    body = rng.choice([f"    return {helper}(x)\n", f"    y = {helper}(x)\n    return y * 2\n", f"    if x:\n        return {helper}(x)\n    return 0\n"])
+    common = f"\n\ndef {shared}(x):\n{body}\n\n{shared}(3)\nprint({shared}(1))\n"
+    return pure + common, impure + common
+
+
 def with_blank_runs(rng: random.Random, text: str) -> str:
     """Insert a run of 3-5 blank lines in front of a statement inside an indented
     block (layout passes must not eat the indentation that follows such a run)."""
